@@ -33,7 +33,7 @@ LEVEL = "exploration"
 SHARDS = {"quick": 8, "thorough": 16}
 TIMEOUT_S = {"quick": 600, "thorough": 3000}
 BUDGET_S = {"quick": 120, "thorough": 1500}
-RULE = ("every template (quick 8 messages per template, thorough 16 x 6; x5 for templates with byte-typed registered serializers), decoded from the wire, x {plain, beautified} x "
+RULE = ("every template (quick 8 messages per template, thorough 16 x 16; x5 for templates with byte-typed registered serializers), decoded from the wire, x {plain, beautified} x "
         "{no replacement table, agent/session/circuit table}; Variable fields with a registered serializer carry payloads "
         "generated from that serializer's template so the =| path is exercised; forced awkward strings; + text fuzz for "
         "the safe-mode clause. distinct_nontrivial = distinct (message, block-count vector, beautify, table) round trips")
@@ -297,7 +297,7 @@ FUZZ_VALS = ["CANARY()", "canary(1)", "__import__('os').getpid()", "1+1", "block
 
 
 def safe_fuzz(ctx, rng):
-    n = ctx.pick(400, 6000)
+    n = ctx.pick(400, 20000)
     for i in range(n):
         tpl = rng.choice(FUZZ_TEMPLATES)
         text = tpl
@@ -325,7 +325,7 @@ def run(ctx):
     install_monitor()
     rng = ctx.rng
     templates = gen_msg.all_templates()
-    per_template = ctx.pick(8, 6)
+    per_template = ctx.pick(8, 16)
     for ti, tmpl in enumerate(templates):
         has_registered = any((tmpl.name, b.name, v.name) in se.SUBFIELD_SERIALIZERS and
                              v.type in (MsgType.MVT_VARIABLE, MsgType.MVT_FIXED) for b in tmpl.blocks for v in b.variables)
